@@ -1,5 +1,6 @@
 import NfcVerif.Lemmas.FnBridgeVendor
 import NfcVerif.Lemmas.Auth
+import NfcVerif.Model.T3
 /-!
 # Bridge theorems, group Vendor (`nfc/tag/tt2_nxp.py`, `tt3_sony.py`, `tt1_broadcom.py` -> `Gen/FnVendor.lean`)
 
@@ -420,20 +421,6 @@ theorem lite_nbr_bridge (nbr : Nat) : Gen.Fn.lite_nbr nbr = ((min nbr 3 : Nat) :
 
 /-! ## Broadcom Topaz -/
 
-/-- wipe data of `Topaz._format` (`Tlv.formatTopaz`: `List.replicate 90 (w % 256)`) -/
-theorem topaz_wipe_gen (n : Nat) (w : Nat) :
-    (PyFn.mkBytes [PyFn.band (w : Int) 255] >>= fun t1 => Except.ok (PyFn.repeatL t1 (n : Int)))
-      = .ok (List.replicate n (w % 256)) := by
-  rw [show (255 : Int) = ((255 : Nat) : Int) from rfl, band_ofNat, and255]
-  have := mkBytes_cast [w % 256] (by intro x hx; simp at hx; omega)
-  simp only [List.map_cons, List.map_nil] at this
-  rw [this]
-  simp only [Py.bind_ok, repeatL, Int.toNat_natCast]
-  congr 1
-  induction n with
-  | zero => rfl
-  | succ k ih => simp [List.replicate_succ, ih]
-
 theorem topaz_wipe_bridge (w : Nat) : Gen.Fn.topaz_wipe w = .ok (List.replicate 90 (w % 256)) := topaz_wipe_gen 90 w
 theorem topaz512_wipe1_bridge (w : Nat) : Gen.Fn.topaz512_wipe1 w = .ok (List.replicate 80 (w % 256)) := topaz_wipe_gen 80 w
 theorem topaz512_wipe2_bridge (w : Nat) : Gen.Fn.topaz512_wipe2 w = .ok (List.replicate 384 (w % 256)) := topaz_wipe_gen 384 w
@@ -453,5 +440,185 @@ theorem topaz_version_bridge (v : Nat) : Gen.Fn.topaz_version v = decide (v / 16
 theorem topaz_hrom_bridge (rid : Bytes) : Gen.Fn.topaz_hrom rid = rid.take 2 := by
   unfold Gen.Fn.topaz_hrom
   rw [show (2 : Int) = ((2 : Nat) : Int) from rfl, slice0]
+
+/-! ## third batch: slice assignment, reversed slices -/
+
+/-- `key[7::-1] + key[15:7:-1]` is `Auth.revHalves`, for every length -/
+theorem lite_rev_halves_bridge (key : Bytes) : Gen.Fn.lite_rev_halves key = Auth.revHalves key := revHalves_gen key
+theorem lite_chal_bridge (rc : Bytes) : Gen.Fn.lite_chal rc = Auth.revHalves rc := revHalves_gen rc
+theorem lites_key_block_bridge (key : Bytes) : Gen.Fn.lites_key_block key = Auth.revHalves key := revHalves_gen key
+
+/-- the Ultralight C key pages hold the same two reversed halves -/
+theorem ulc_key_split_bridge (key : Bytes) :
+    Gen.Fn.ulc_key_split key = ((key.take 8).reverse, ((key.drop 8).take 8).reverse) := by
+  unfold Gen.Fn.ulc_key_split
+  rw [show (7 : Int) = ((7 : Nat) : Int) from rfl, show (15 : Int) = ((15 : Nat) : Int) from rfl, sliceRev_none, sliceRev_some,
+    List.drop_take]
+
+example : Gen.Fn.lite_rev_halves (List.range 16) = [7, 6, 5, 4, 3, 2, 1, 0, 15, 14, 13, 12, 11, 10, 9, 8] := by decide +kernel
+
+/-- C20 `protect_key_block` for the regenerated byte shuffling: the key block written by `protect` stores the key
+in the layout the tag's MAC computation reads back (`word (revHalves key) i`) -/
+theorem gen_key_block_words (key : Bytes) (h : key.length = 16) :
+    Auth.word (Gen.Fn.lite_rev_halves key) 0 = key.take 8 ∧ Auth.word (Gen.Fn.lite_rev_halves key) 1 = key.drop 8 := by
+  rw [lite_rev_halves_bridge]
+  exact ⟨Auth.word_revHalves_0 key h, Auth.word_revHalves_1 key h⟩
+
+/-- card key version block (`protectLiteS`: `le16 ckv ++ zeros 14`) -/
+theorem lites_ckv_block_bridge (ckv : Nat) (h : ckv < 65536) :
+    Gen.Fn.lites_ckv_block ckv = .ok (AuthHist.le16 ckv ++ Auth.zeros 14) := by
+  unfold Gen.Fn.lites_ckv_block AuthHist.le16 Auth.zeros
+  have : ¬ ckv > 65535 := by omega
+  rw [pack_Hle]
+  simp only [this, if_false, Py.bind_ok, repeatL]
+  rw [Nat.mod_eq_of_lt (by omega : ckv / 256 < 256)]
+  rfl
+
+/-- NTAG21x `protect(password)`: the configuration pages with PWD/PACK, AUTH0 and PROT -/
+theorem ntag_protect_cfg_bridge (cfg key : Bytes) (rp : Bool) (pf : Nat) (hl : cfg.length = 16) :
+    Gen.Fn.ntag_protect_cfg cfg key rp pf = Gen.Fn.ntag_protect_cfg34 (cfg.take 8 ++ key ++ cfg.drop 14) rp pf := by
+  unfold Gen.Fn.ntag_protect_cfg Gen.Fn.ntag_protect_cfg34
+  rw [show (8 : Int) = ((8 : Nat) : Int) from rfl, show (14 : Int) = ((14 : Nat) : Int) from rfl,
+    setSlice_nat cfg 8 14 key (by omega) (by omega)]
+
+/-- C20 `ntagProtectPages` entirely in regenerated functions -/
+theorem gen_ntag_protect (pw cfg : Bytes) (rp : Bool) (pf : Nat) (hl : cfg.length = 16) (hb : IsBytes cfg) (hpw : IsBytes pw) :
+    Auth.ntagProtectPages pw rp pf cfg =
+      (Gen.Fn.ntag_protect_key pw rp pf >>= fun key =>
+        Gen.Fn.ntag_protect_cfg cfg key rp pf >>= fun c =>
+          .ok [Gen.Fn.ntag_protect_page c 0, Gen.Fn.ntag_protect_page c 1, Gen.Fn.ntag_protect_page c 2,
+               Gen.Fn.ntag_protect_page c 3]) := by
+  rw [ntag_protect_key_bridge]
+  cases hk : Auth.ntagKey pw with
+  | error e => simp [Auth.ntagProtectPages, hk]
+  | ok key =>
+    have hkl := Auth.ntagKey_length pw key hk
+    have hkb : IsBytes key := by
+      unfold Auth.ntagKey at hk
+      split at hk
+      · cases hk
+      · cases hk
+        split
+        · intro b hb; simp at hb; omega
+        · exact isBytes_take hpw 6
+    simp only [Py.bind_ok]
+    rw [ntag_protect_cfg_bridge cfg key rp pf hl]
+    exact gen_ntag_protect_pages pw key cfg rp pf hk hl hb hkb
+
+
+/-- `FelicaLite._format`: the attribute block (Nbr 4, Nbw 1, writeable, empty) is `T3.encodeAttr` of those attributes -/
+theorem lite_format_attr_bridge (version nmaxb : Nat) (h1 : version < 256) (h2 : nmaxb < 65536) :
+    Gen.Fn.lite_format_attr version nmaxb = .ok (T3.encodeAttr ⟨version, 4, 1, nmaxb, 0, 1, 0⟩) := by
+  unfold Gen.Fn.lite_format_attr T3.encodeAttr
+  rw [zeros16']
+  simp only [Py.bind_ok, lit_cast]
+  rw [pack_BBBH version 4 1 nmaxb h1 (by omega) (by omega) h2]
+  have p1 : PyFn.pack [.B] [((1 : Nat) : Int)] = .ok [1] := by decide
+  rw [p1]
+  simp only [Py.bind_ok, List.cons_append, List.nil_append]
+  rw [setSlice_nat _ 0 14 _ (by omega) (by simp)]
+  simp only [List.take, List.drop, List.nil_append, List.cons_append, List.drop_succ_cons, List.drop_zero]
+  rw [sliceTo_ofNat, sum_ints]
+  simp only [List.take, List.foldl, List.take_succ_cons, List.take_zero, Nat.zero_add, Nat.add_zero]
+  rw [pack_Hbe' _ (by omega)]
+  simp only [Py.bind_ok, len_eq, List.length_cons, List.length_nil, Nat.reduceAdd]
+  rw [setSlice_nat _ 14 16 _ (by omega) (by simp)]
+  simp only [List.take, List.drop, List.nil_append, List.cons_append, List.drop_succ_cons, List.drop_zero, List.take_succ_cons,
+    List.take_zero, List.append_nil]
+
+example : Gen.Fn.lite_format_attr 0x10 13 = .ok [0x10, 4, 1, 0, 13, 0, 0, 0, 0, 0, 1, 0, 0, 0, 0, 0x23] := by decide +kernel
+
+
+/-- `Topaz._format(version=None, wipe)` on a cached image that covers the static memory: `Tlv.formatTopaz` -/
+theorem topaz_format_bridge (m : Bytes) (wipe : Option Nat) (h : 104 ≤ m.length) :
+    Gen.Fn.topaz_format m (wipe.map fun (w : Nat) => (w : Int)) = Tlv.formatTopaz m wipe := by
+  unfold Gen.Fn.topaz_format Tlv.formatTopaz Tlv.setSlice Tlv.topazHdr
+  rw [show (8 : Int) = ((8 : Nat) : Int) from rfl, show (14 : Int) = ((14 : Nat) : Int) from rfl,
+    setSlice_nat m 8 14 _ (by omega) (by omega)]
+  have hs : 8 + [225, 16, 14, 0, 3, 0].length ≤ m.length := by simp; omega
+  have hw := writeAt_splice [0xE1, 0x10, 0x0E, 0x00, 0x03, 0x00] m 8 hs
+  simp only [List.length_cons, List.length_nil, Nat.reduceAdd] at hw hs
+  simp only [hs, List.length_cons, List.length_nil, Nat.reduceAdd, if_true, Py.bind_ok, hw]
+  cases wipe with
+  | none => rfl
+  | some w =>
+    simp only [Option.map_some, Py.bind_ok]
+    have hg := topaz_wipe_gen 90 w
+    generalize hm1 : (List.take 8 m ++ [225, 16, 14, 0, 3, 0] ++ List.drop 14 m) = m1
+    have hl1 : m1.length = m.length := by rw [← hm1]; simp; omega
+    have hs2 : 14 + (List.replicate 90 (w % 256)).length ≤ m1.length := by simp; omega
+    simp only [hs2, if_true]
+    rw [writeAt_splice _ m1 14 hs2]
+    have : (PyFn.mkBytes [PyFn.band (w : Int) 255] >>= fun t1 => (Except.ok (PyFn.setSlice m1 14 104 (PyFn.repeatL t1 90)) : Py Bytes))
+        = (PyFn.mkBytes [PyFn.band (w : Int) 255] >>= fun t1 => Except.ok (PyFn.repeatL t1 ((90 : Nat) : Int))) >>= fun d =>
+            Except.ok (PyFn.setSlice m1 14 104 d) := by
+      cases PyFn.mkBytes [PyFn.band (w : Int) 255] <;> rfl
+    show (PyFn.mkBytes [PyFn.band (w : Int) 255] >>= fun t1 => (Except.ok (PyFn.setSlice m1 14 104 (PyFn.repeatL t1 90)) : Py Bytes)) >>= _ = _
+    rw [this, hg]
+    simp only [Py.bind_ok]
+    rw [show (14 : Int) = ((14 : Nat) : Int) from rfl, show (104 : Int) = ((104 : Nat) : Int) from rfl,
+      setSlice_nat m1 14 104 _ (by omega) (by omega)]
+    simp
+
+
+/-- `Topaz512._format(version=None, wipe)`: `Tlv.formatTopaz512` -/
+theorem topaz512_format_bridge (m : Bytes) (wipe : Option Nat) (h : 512 ≤ m.length) :
+    Gen.Fn.topaz512_format m (wipe.map fun (w : Nat) => (w : Int)) = Tlv.formatTopaz512 m wipe := by
+  unfold Gen.Fn.topaz512_format Tlv.formatTopaz512 Tlv.topaz512Hdr
+  rw [show (8 : Int) = ((8 : Nat) : Int) from rfl, show (16 : Int) = ((16 : Nat) : Int) from rfl,
+    show (24 : Int) = ((24 : Nat) : Int) from rfl,
+    setSlice_nat m 8 16 _ (by omega) (by omega)]
+  generalize hm1 : (List.take 8 m ++ [225, 16, 63, 0, 1, 3, 242, 48] ++ List.drop 16 m) = m1
+  have hl1 : m1.length = m.length := by rw [← hm1]; simp; omega
+  dsimp only
+  rw [setSlice_nat m1 16 24 _ (by omega) (by omega)]
+  generalize hm2 : (List.take 16 m1 ++ [51, 2, 3, 240, 2, 3, 3, 0] ++ List.drop 24 m1) = m2
+  have hl2 : m2.length = m.length := by rw [← hm2]; simp; omega
+  have hmodel : Tlv.setSlice (Tlv.t1Cfg 8) m 8 [0xE1, 0x10, 0x3F, 0x00, 0x01, 0x03, 0xF2, 0x30, 0x33, 0x02, 0x03, 0xF0, 0x02, 0x03, 0x03, 0x00]
+      = .ok m2 := by
+    rw [tlv_setSlice_ok _ m 8 _ (by simp; omega)]
+    congr 1
+    rw [← hm2, ← hm1]
+    simp only [List.length_cons, List.length_nil, Nat.reduceAdd]
+    have e1 : List.take 16 (List.take 8 m ++ [225, 16, 63, 0, 1, 3, 242, 48] ++ List.drop 16 m)
+        = List.take 8 m ++ [225, 16, 63, 0, 1, 3, 242, 48] := by
+      rw [List.take_append_of_le_length (by simp; omega), List.take_of_length_le (by simp; omega)]
+    have e2 : List.drop 24 (List.take 8 m ++ [225, 16, 63, 0, 1, 3, 242, 48] ++ List.drop 16 m) = List.drop 24 m := by
+      rw [List.drop_append, List.drop_of_length_le (by simp; omega)]
+      simp [List.drop_drop]
+      congr 1
+      omega
+    rw [e1, e2]
+    simp
+  rw [hmodel]
+  simp only [Py.bind_ok]
+  cases wipe with
+  | none => rfl
+  | some w =>
+    simp only [Option.map_some, Py.bind_ok]
+    have w1 := wipe_splice m2 24 104 80 w (by omega) (by omega)
+    rw [tlv_setSlice_ok _ m2 24 _ (by rw [List.length_replicate]; omega)]
+    simp only [Py.bind_ok, List.length_replicate, Nat.reduceAdd]
+    generalize hm3 : (List.take 24 m2 ++ List.replicate 80 (w % 256) ++ List.drop 104 m2) = m3 at *
+    have hl3 : m3.length = m.length := by rw [← hm3]; simp; omega
+    rw [tlv_setSlice_ok _ m3 128 _ (by rw [List.length_replicate]; omega)]
+    simp only [Py.bind_ok, List.length_replicate, Nat.reduceAdd]
+    have w2 := wipe_splice m3 128 512 384 w (by omega) (by omega)
+    show (PyFn.mkBytes [PyFn.band (w : Int) 255] >>= fun t1 =>
+        let tag_memory_3 := PyFn.setSlice m2 ((24 : Nat) : Int) 104 (PyFn.repeatL t1 80)
+        PyFn.mkBytes [PyFn.band (w : Int) 255] >>= fun t2 =>
+        (Except.ok (PyFn.setSlice tag_memory_3 128 512 (PyFn.repeatL t2 384)) : Py Bytes)) >>= _ = _
+    have hmk : PyFn.mkBytes [PyFn.band (w : Int) 255] = .ok [w % 256] := by
+      rw [show (255 : Int) = ((255 : Nat) : Int) from rfl, band_ofNat, and255]
+      have := mkBytes_cast [w % 256] (by intro x hx; simp at hx; omega)
+      simpa using this
+    rw [hmk] at w1 w2 ⊢
+    simp only [Py.bind_ok] at w1 w2 ⊢
+    have e3 : PyFn.setSlice m2 ((24 : Nat) : Int) 104 (PyFn.repeatL [w % 256] 80) = m3 := by
+      have := w1; simp only [Except.ok.injEq] at this; exact this
+    rw [e3]
+    have e4 : PyFn.setSlice m3 128 512 (PyFn.repeatL [w % 256] 384) = List.take 128 m3 ++ List.replicate 384 (w % 256) ++ List.drop 512 m3 := by
+      have := w2; simp only [Except.ok.injEq] at this; exact this
+    rw [e4]
 
 end NfcVerif.FnBridge.Vendor
